@@ -55,7 +55,7 @@ var (
 		}
 		return a
 	}()
-	uniKeys     = []string{"a", "ab", "abc", "b", "ba", "c-1", "c-10"}
+	uniKeys     = []string{"a", "ab", "abc", "b", "ba", "c-1", "c-10", "\xff\xfe\x01", "ab\x80\xc3\x28"} // the last two are not valid UTF-8 (EVM storage slots are 32-byte hashes)
 	uniPrefixes = []string{"", "a", "ab", "b", "c-1", "z"}
 )
 
